@@ -338,3 +338,62 @@ theorem vliDecLoop_spec (t : List UInt8) (acc pos used : Nat) :
           · rw [hl, List.drop_succ_cons]; exact h2
 
 end XzVerif.Coder
+
+namespace XzVerif.Coder
+open XzVerif.Vli
+
+/-- The encoder loop over an output window of `a₁ + a₂` bytes = the loop over `a₁` bytes and, if that ended with `LZMA_OK`
+    (window full, more bytes to come), the loop over `a₂` bytes on what is left of the value. -/
+theorem vliEncLoop_append (a₁ a₂ w pos : Nat) (h₁ : 0 < a₁) (h₂ : 0 < a₂) :
+    vliEncLoop (a₁ + a₂) w pos =
+      if (vliEncLoop a₁ w pos).1 = .ok then
+        ((vliEncLoop a₂ (w / 128 ^ a₁) (pos + a₁)).1, (vliEncLoop a₂ (w / 128 ^ a₁) (pos + a₁)).2.1,
+          (vliEncLoop a₁ w pos).2.2 ++ (vliEncLoop a₂ (w / 128 ^ a₁) (pos + a₁)).2.2)
+      else vliEncLoop a₁ w pos := by
+  induction a₁ generalizing w pos with
+  | zero => omega
+  | succ n ih =>
+    have e : n + 1 + a₂ = (n + a₂) + 1 := by omega
+    rw [e]
+    simp only [vliEncLoop]
+    by_cases hw : w ≥ 128
+    · simp only [hw, if_true]
+      have hna : n + a₂ ≠ 0 := by omega
+      simp only [hna, if_false]
+      by_cases hn : n = 0
+      · subst hn
+        simp only [Nat.zero_add, if_true, Nat.pow_one]
+        cases a₂ with
+        | zero => omega
+        | succ m => simp [Nat.add_comm]
+      · simp only [hn, if_false]
+        rw [ih (w / 128) (pos + 1) (by omega)]
+        have hp : w / 128 / 128 ^ n = w / 128 ^ (n + 1) := by
+          rw [Nat.div_div_eq_div_mul, Nat.pow_succ, Nat.mul_comm]
+        have hq : pos + 1 + n = pos + (n + 1) := by omega
+        by_cases hok : (vliEncLoop n (w / 128) (pos + 1)).1 = .ok
+        · simp [hok, hp, hq]
+        · simp [hok]
+    · simp [hw]
+
+/-- When the loop stops with `LZMA_OK` it has filled the window and advanced `vli_pos` by its size; the value was big enough to
+    need all those continuation bytes. -/
+theorem vliEncLoop_ok (a w pos : Nat) (h : (vliEncLoop a w pos).1 = .ok) (ha : 0 < a) :
+    (vliEncLoop a w pos).2.1 = pos + a ∧ (vliEncLoop a w pos).2.2.length = a ∧ 128 ^ a ≤ w := by
+  induction a generalizing w pos with
+  | zero => omega
+  | succ n ih =>
+    simp only [vliEncLoop] at h ⊢
+    by_cases hw : w ≥ 128
+    · simp only [hw, if_true] at h ⊢
+      by_cases hn : n = 0
+      · subst hn; simp [hw]
+      · simp only [hn, if_false] at h ⊢
+        obtain ⟨i1, i2, i3⟩ := ih (w / 128) (pos + 1) h (by omega)
+        refine ⟨by rw [i1]; omega, by simp [i2], ?_⟩
+        rw [Nat.pow_succ]
+        have := Nat.mul_le_of_le_div 128 _ _ i3
+        omega
+    · simp [hw] at h
+
+end XzVerif.Coder
